@@ -298,7 +298,7 @@ def check_send_events(rep, ctx, tier):
                 sz = last_sz[-1]
                 rem = [e for e in ev[ev.index(sz):k] if e.kind == "call" and e.callee.endswith("remove_last_event")]
                 over = z3.UGE(sz.ret.scalar("usize"), z3.BitVecVal(65536, 64))
-                ok = bool(rem) or implied(r, z3.Not(over))
+                ok = (bool(rem) or implied(r, z3.Not(over))) and same_origin(sz.rargs[0], snd.rargs[0])      # ... measured on the very batch that is sent
                 rep.add(Query("send_events path %d: what is sent measured < 64 KiB, or lost its last event after measuring >= 64 KiB" % i, "holds" if ok else "violated", "", 0, "mirsym+z3", key="C18.batch.size", reproduced=None))
         # progress: between two sends at least one event was popped
         for a, b in zip(sends, sends[1:]):
@@ -306,6 +306,98 @@ def check_send_events(rep, ctx, tier):
             rep.add(Query("send_events path %d: every batch round consumes at least one event (termination)" % i, "holds" if mid else "violated", "", 0, "mirsym", key="C18.batch.progress", reproduced=None))
     rep.add(Query("witness: send_events has oversize-drop, put-back and send paths", "witness-hit" if n_drop and n_put and n_send else "witness-missed", "%d/%d/%d" % (n_drop, n_put, n_send), 0, "mirsym"))
     rep.bounds["send_events"] = "<= %d events per file (loop bound), sizes symbolic 64-bit" % (2 if tier == "quick" else 3)
+
+
+def check_data_contracts(rep, ctx):
+    """what send_events measures and counts is what is posted: the TelemetryData methods it uses (uninterpreted there) against their bodies"""
+    def ev_field(v, me):
+        # v is (a view of) field 0 (`events`) of *self
+        return derives(v, me.child("*").child(("f", 0)))
+    recorded = {}
+
+    def hook(engine, ev):
+        if ev.kind == "call" and ev.callee.endswith("TelemetryData::to_xml"):
+            recorded[id(ev)] = engine.len_of(ev.ret)
+    # get_size() == to_xml(self).len()
+    path = ctx.method("TelemetryData", "get_size")
+    eng = ctx.engine(); eng.event_hook = hook
+    paths = eng.explore(path)
+    rep.functions_encoded.append(path)
+    ok = bool(paths)
+    why = ""
+    for r in paths:
+        tx = [e for e in r.events if e.kind == "call" and e.callee.endswith("TelemetryData::to_xml") and same_origin(e.rargs[0], r.args[0])]
+        others = [e for e in r.events if e.kind in ("call", "await") and e not in tx]
+        good = r.status == "return" and len(tx) == 1 and not others and isinstance(r.ret, Scalar) and id(tx[0]) in recorded and z3.eq(z3.simplify(r.ret.e), z3.simplify(recorded[id(tx[0])]))
+        if not good:
+            ok = False
+            why = "status %s, to_xml(self) calls %d, other calls %s, returns %s" % (r.status, len(tx), [e.callee for e in others][:4], str(r.ret)[:60])
+    rep.add(Query("TelemetryData::get_size: the size compared with 64 KiB is the byte length of to_xml(self), the very text that is posted", "holds" if ok else "violated", why, 0, "mirsym+z3",
+                  key="C18.size.rendered-length", reproduced=None))
+    # add_event / remove_last_event / event_count act on self.events
+    for meth, want in (("add_event", "push"), ("remove_last_event", "pop"), ("event_count", "len")):
+        path = ctx.method("TelemetryData", meth)
+        eng = ctx.engine()
+        paths = eng.explore(path)
+        rep.functions_encoded.append(path)
+        ok, why = bool(paths), ""
+        for r in paths:
+            me = origin(r.args[0])
+            calls = [e for e in r.events if e.kind in ("call", "len")]
+            good = r.status == "return" and len(calls) == 1 and calls[0].callee.endswith("Vec::" + want) and ev_field(calls[0].rargs[0], me)
+            if good and want == "push":
+                good = same_origin(calls[0].rargs[1], r.args[1])
+            if good and want == "pop":
+                good = r.ret is calls[0].ret or same_origin(r.ret, calls[0].ret)
+            if good and want == "len":
+                good = isinstance(r.ret, Scalar) and isinstance(calls[0].ret, Scalar) and z3.eq(z3.simplify(r.ret.e), z3.simplify(calls[0].ret.e))
+            if not good:
+                ok, why = False, "status %s, calls %s" % (r.status, [e.callee for e in calls][:4])
+        rep.add(Query("TelemetryData::%s is exactly Vec::%s on the batch's own event vector" % (meth, want), "holds" if ok else "violated", why, 0, "mirsym", key="C18.size.%s" % meth, reproduced=None))
+    # to_xml: constant prologue, one to_xml_event(item) per item of self.events in order, constant epilogue - nothing else
+    path = ctx.method("TelemetryData", "to_xml")
+    eng = ctx.engine(loop_bound=2)
+    paths = eng.explore(path)
+    rep.functions_encoded.append(path)
+    ok, why, n = bool(paths), "", 0
+    for r in paths:
+        me = origin(r.args[0])
+        ev = r.events
+        news = [e for e in ev if e.callee.endswith("String::new")]
+        push = [e for e in ev if e.callee.endswith("push_str")]
+        nexts = [e for e in ev if e.callee.endswith("Iterator>::next")]
+        rend = [e for e in ev if e.callee.endswith("to_xml_event")]
+        other = [e for e in ev if e.kind in ("call", "await") and e not in news + push + nexts + rend]
+        good = len(news) == 1 and not other and all(same_origin(p_.rargs[0], news[0].ret) for p_ in push) and all(ev_field(x.rargs[0], me) for x in nexts)
+        good = good and bool(push) and isinstance(origin(push[0].rargs[1]), StrV)
+        mid = push[1:-1] if r.status == "return" else push[1:]
+        if r.status == "return":
+            good = good and len(push) >= 2 and isinstance(origin(push[-1].rargs[1]), StrV) and same_origin(r.ret, news[0].ret) and len(mid) == len(nexts) - 1
+            n += 1
+        good = good and len(mid) == len(rend) and all(same_origin(p_.rargs[1], x.ret) for p_, x in zip(mid, rend))
+        # the k-th rendered event is the k-th item handed out by the iterator
+        good = good and all(derives(x.rargs[0], nx.ret, ev) for x, nx in zip(rend, nexts))
+        if not good:
+            ok, why = False, "path with %d push_str / %d next / %d to_xml_event / other %s" % (len(push), len(nexts), len(rend), [e.callee for e in other][:3])
+    rep.add(Query("TelemetryData::to_xml: prologue, one to_xml_event per stored event in order, epilogue; nothing else is appended (<= 2 events)", "holds" if ok and n else "violated", why, 0, "mirsym",
+                  key="C18.size.to_xml-shape", reproduced=None))
+    # the sender posts to_xml() of the batch it was given, unchanged
+    w = ctx.method("EventReader", "send_data_to_wire_server") + "::{closure#0}"
+    eng = ctx.engine(loop_bound=2)
+    paths = eng.explore(w)
+    rep.functions_encoded.append(w)
+    ok, why, n = bool(paths), "", 0
+    for r in paths:
+        ev = r.events
+        env = origin(r.args[0])
+        mut = [e for e in ev if e.kind == "call" and re.search(r"TelemetryData::(add_event|remove_last_event)$", e.callee)]
+        for snd in [e for e in ev if e.kind == "call" and e.callee.endswith("send_telemetry_data")]:
+            n += 1
+            src = [e for e in ev if e.kind == "call" and e.callee.endswith("TelemetryData::to_xml") and same_origin(snd.rargs[1], e.ret)]
+            good = len(src) == 1 and derives(src[0].rargs[0], env, ev) and not mut
+            if not good:
+                ok, why = False, "body %s" % str(snd.rargs[1])[:80]
+    rep.add(Query("send_data_to_wire_server: every POST body is to_xml() of the batch handed in, which is not changed there", "holds" if ok and n else "violated", why, 0, "mirsym", key="C18.size.posted-is-measured", reproduced=None))
 
 
 def check_clean(rep, ctx):
@@ -344,7 +436,18 @@ def check(rep, tier, seed):
     check_escape(rep, ctx, tier)
     check_to_xml_event(rep, ctx)
     check_send_events(rep, ctx, tier)
+    check_data_contracts(rep, ctx)
     check_clean(rep, ctx)
+    import batteries
+    batteries.confirm(rep, "C18")
+    ub = rep.extra.get("unit_battery") or {}
+    if ub.get("ran") and not ub.get("failed"):
+        # the method contracts are recognised by shape; another correct implementation (say a size kept current incrementally) is not
+        # a violation: when the native runs at the size boundary all pass, such an unrecognised shape is inconclusive, not an alarm
+        for q in rep.queries:
+            if q.status == "violated" and q.reproduced is None and (q.key or "").startswith("C18.size."):
+                q.reproduced = False
+                q.detail += " || shape not recognised and the native boundary runs pass: inconclusive"
     rep.assumptions += ["event text is free of control characters (the property's own premise); non-ASCII characters are not touched by a single-character ASCII replace",
                         "Vec::pop/push/is_empty and TelemetryData size are uninterpreted: any sizes, any number of events up to the loop bound"]
     rep.outside_claim += ["XML well-formedness beyond the escaping argument", "duplicate delivery when the host processed a batch but the reply was lost (5 retries)", "event files written concurrently"]
